@@ -11,9 +11,10 @@
 import TypedpyModel.Drive.Wire
 import TypedpyModel.Sem.Stub
 import TypedpyModel.Sem.StubText
+import TypedpyModel.Sem.StubDefine
 namespace Typedpy.Drive.Stub
 open Lean (Json)
-open Typedpy.Wire Typedpy.Stub Typedpy.StubText
+open Typedpy.Wire Typedpy.Stub Typedpy.StubText Typedpy.StubD
 
 def fieldOfJson (j : Json) : Except String FieldInfo := do
   let n ← (← j.getObjVal? "n").getStr?
@@ -45,7 +46,7 @@ def buildClasses (ds : List (Decl × List Nat)) : Except String (Array ClassInfo
 def paramsToJson (ps : List Param) : Json :=
   Json.arr (ps.map fun p => Json.arr #[.str p.name, .bool p.hasDefault]).toArray
 
-def sigToJson (s : Sig) : Json := Json.mkObj [("params", paramsToJson s.params), ("kw", .bool s.kw)]
+def sigToJson (s : Stub.Sig) : Json := Json.mkObj [("params", paramsToJson s.params), ("kw", .bool s.kw)]
 
 def strsToJson (xs : List String) : Json := Json.arr (xs.map Json.str).toArray
 
@@ -70,7 +71,53 @@ def report (dflt apd : Bool) (c : ClassInfo) : Json :=
     ("admitsExtra", .bool (runtimeAdmitsExtra dflt c)),
     ("inheritedAddlOn", .bool (inheritedAddlOn dflt c)),
     ("inheritedAddlOff", .bool (inheritedAddlOff dflt c)),
-    ("mandatoryFirst", .bool (mandatoryFirst (stubInit dflt apd c).params))]
+    ("mandatoryFirst", .bool (mandatoryFirst (stubInit dflt apd c).params)),
+    ("addlDeclared", .bool (addlLookup (mro c)).isSome)]
+
+/-! ### the same classes as class objects of Sem/Define.lean (any hierarchy shape: C3 linearisation) -/
+
+def clsKey (i : Nat) : String := s!"c{i}"
+
+def toSrc (i : Nat) (d : Decl) (bases : List Nat) : ClassSrc :=
+  { name := clsKey i
+    bases := if bases.isEmpty then ["Structure"] else bases.map clsKey
+    entries := d.fields.map fun f =>
+      (f.name, SrcEntry.obj (if f.isConst then Member.const (.int 0)
+                             else Member.field .anything (if f.hasDefault then some (.lit (.int 1)) else none)))
+    required := d.requiredDecl, optional := d.optionalDecl, addl := d.addl }
+
+/-- worlds before each class statement, and the sources -/
+def buildWorlds (ds : List (Decl × List Nat)) : Array (World × ClassSrc) :=
+  let step := fun (acc : Array (World × ClassSrc) × World × Nat) (x : Decl × List Nat) =>
+    let src := toSrc acc.2.2 x.1 x.2
+    (acc.1.push (acc.2.1, src), acc.2.1.add (build acc.2.1 src), acc.2.2 + 1)
+  (ds.foldl step (#[], World.init, 0)).1
+
+def helperD (h : Helper) (s : Stub.Sig) : Stub.Sig :=
+  ⟨helperPrefix h ++ s.params.map (fun p => ⟨p.name, true⟩), s.kw⟩
+
+def reportD (dflt apd : Bool) (label : String) (w : World) (src : ClassSrc) : Json :=
+  let c := build w src
+  let s := stubInitD apd w src
+  Json.mkObj [
+    ("name", .str label),
+    ("init", sigToJson s),
+    ("shallowClone", sigToJson (helperD .shallowClone s)),
+    ("fromOtherClass", sigToJson (helperD .fromOtherClass s)),
+    ("fromTrustedData", sigToJson (helperD .fromTrustedData s)),
+    ("runtime", sigToJson ⟨sigParamsD (Typedpy.sigOf w src), sigKwD dflt w src⟩),
+    ("required", strsToJson c.required),
+    ("consts", strsToJson (c.constants.map (·.1))),
+    ("fieldOrder", strsToJson (c.allFields.map (·.1))),
+    ("admitsExtra", .bool (admitsD dflt w src)),
+    ("inheritedAddlOn", .bool (inheritedOnD dflt w src)),
+    ("inheritedAddlOff", .bool (inheritedOffD dflt w src)),
+    ("mandatoryFirst", .bool (mandatoryFirst s.params)),
+    ("namesCovered", .bool (namesCovered w src)),
+    ("addlDeclared", .bool (addlAttr w src).isSome),
+    ("mro", strsToJson c.mro),
+    ("mroOk", .bool (mroOf w src).isSome),
+    ("sigDup", .bool ((Typedpy.sigOf w src).req.any (fun n => (Typedpy.sigOf w src).opt.contains n)))]
 
 /-! ### the text tie: annotation ASTs in, the real header texts in; model tokens vs lexed real text, parser verdicts out -/
 
@@ -127,10 +174,10 @@ def optStr (j : Json) (k : String) : Except String (Option String) :=
   | none => pure none
   | some x => do pure (some (← x.getStr?))
 
-def textClass (dflt apd : Bool) (classes : Array ClassInfo) (j : Json) : Except String Json := do
+def textClass (sigFor : Nat → Option (Stub.Sig × String)) (j : Json) : Except String Json := do
   let i ← (← j.getObjVal? "i").getNat?
-  let c ← match classes[i]? with
-    | some c => pure c
+  let (sig, cname) ← match sigFor i with
+    | some x => pure x
     | none => throw s!"text: class index {i} out of range"
   let annsL ← (← (← j.getObjVal? "anns").getArr?).toList.mapM fun kv => do
     let a ← kv.getArr?
@@ -141,7 +188,6 @@ def textClass (dflt apd : Bool) (classes : Array ClassInfo) (j : Json) : Except 
   let bases ← match optField j "bases" with
     | none => pure []
     | some x => do (← x.getArr?).toList.mapM fun b => do (← b.getArr?).toList.mapM (·.getStr?)
-  let sig := stubInit dflt apd c
   let attrs ← match optField j "attrs" with
     | none => pure []
     | some x => do (← x.getArr?).toList.mapM fun kv => do
@@ -155,21 +201,54 @@ def textClass (dflt apd : Bool) (classes : Array ClassInfo) (j : Json) : Except 
     | some p => if lexPy t == some (attrToks (anns n) p) then none else some n
   let domain := textDomain anns sig.params
   pure (Json.mkObj [
-    ("name", .str c.decl.name), ("domain", .bool domain),
+    ("name", .str cname), ("domain", .bool domain),
     ("init", tieToks (initToks anns sig) (← optStr j "init")),
     ("shallowClone", tieToks (helperToks anns .shallowClone sig) (← optStr j "shallowClone")),
     ("fromOtherClass", tieToks (helperToks anns .fromOtherClass sig) (← optStr j "fromOtherClass")),
     ("fromTrustedData", tieToks (helperToks anns .fromTrustedData sig) (← optStr j "fromTrustedData")),
     ("header", match (← optStr j "header") with
       | none => Json.null
-      | some s => Json.mkObj [("eq", .bool (lexPy s == some (classToks c.decl.name bases))),
-                              ("model", .str (toksText (classToks c.decl.name bases)))]),
+      | some s => Json.mkObj [("eq", .bool (lexPy s == some (classToks cname bases))),
+                              ("model", .str (toksText (classToks cname bases)))]),
     ("attrBad", strsToJson attrBad)])
 
-def textReport (dflt apd : Bool) (classes : Array ClassInfo) (j : Json) : Except String Json := do
+def kindOfStr (s : String) : Except String PKind :=
+  match s with
+  | "po" => pure .po | "pk" => pure .pk | "va" => pure .va | "ko" => pure .ko | "vk" => pure .vk
+  | _ => throw s!"unknown parameter kind {s}"
+
+def optAnn (j : Json) : Except String (Option Ann) :=
+  match j with
+  | .null => pure none
+  | _ => do pure (some (← annOfJson j))
+
+/-- one method / function as `inspect.signature` reports it (+ the annotation / default expressions read off the
+    stub): the model's `methodToks` against the lexed real header -/
+def textMethod (j : Json) : Except String Json := do
+  let f ← (← j.getObjVal? "name").getStr?
+  let text ← (← j.getObjVal? "text").getStr?
+  let ps ← (← (← j.getObjVal? "ps").getArr?).toList.mapM fun p => do
+    let a ← p.getArr?
+    match a.toList with
+    | [n, k, ann, d] => do
+      let n' ← n.getStr?
+      let k' ← kindOfStr (← k.getStr?)
+      let a' ← optAnn ann
+      let d' ← optAnn d
+      pure ({ name := n', kind := k', ann := a', dflt := d' } : RParam)
+    | _ => throw "text: method parameter must be [name, kind, ann, default]"
+  let ret ← match optField j "ret" with
+    | none => pure none
+    | some r => optAnn r
+  let model := methodToks f ps ret
+  pure (Json.mkObj [("eq", .bool (lexPy text == some model)), ("model", .str (toksText model)),
+    ("valid", .bool (validGo .po0 false ps)),
+    ("roundtrip", .bool (parseDef model == some ⟨f, ps.map RParam.info⟩))])
+
+def textReport (sigFor : Nat → Option (Stub.Sig × String)) (j : Json) : Except String Json := do
   let cls ← match optField j "classes" with
     | none => pure []
-    | some x => do (← x.getArr?).toList.mapM (textClass dflt apd classes)
+    | some x => do (← x.getArr?).toList.mapM (textClass sigFor)
   let strs (k : String) : Except String (List String) := match optField j k with
     | none => pure []
     | some x => do (← x.getArr?).toList.mapM (·.getStr?)
@@ -177,7 +256,10 @@ def textReport (dflt apd : Bool) (classes : Array ClassInfo) (j : Json) : Except
     ("classes", Json.arr cls.toArray),
     ("defs", Json.arr ((← strs "defs").map parseDefText).toArray),
     ("muts", Json.arr ((← strs "muts").map parseDefText).toArray),
-    ("cls", Json.arr ((← strs "cls").map parseClassText).toArray)])
+    ("cls", Json.arr ((← strs "cls").map parseClassText).toArray),
+    ("meths", Json.arr (← match optField j "meths" with
+      | none => pure []
+      | some x => do (← x.getArr?).toList.mapM textMethod).toArray)])
 
 def run (j : Json) : Except String Json := do
   let dflt ← optBool j "dflt" true
@@ -198,10 +280,22 @@ def run (j : Json) : Except String Json := do
         match a.toList with
         | [k, v] => pure ((← k.getStr?), (← v.getStr?))
         | _ => throw "imports entry must be [name, module]"
+  let worlds := buildWorlds ds
+  let nontree ← match optField j "nontree" with
+    | none => pure []
+    | some x => do (← x.getArr?).toList.mapM (·.getNat?)
+  let repsD := targets.filterMap fun i => match worlds[i]?, classes[i]? with
+    | some (w, src), some c => some (reportD dflt apd c.decl.name w src)
+    | _, _ => none
+  let sigFor : Nat → Option (Stub.Sig × String) := fun i =>
+    match classes[i]?, worlds[i]? with
+    | some c, some (w, src) =>
+      some (if nontree.contains i then stubInitD apd w src else stubInit dflt apd c, c.decl.name)
+    | _, _ => none
   let text ← match optField j "text" with
     | none => pure Json.null
-    | some t => textReport dflt apd classes t
-  pure (Json.mkObj [("classes", Json.arr reps.toArray), ("imports", strsToJson (renderImports imports)),
-    ("text", text)])
+    | some t => textReport sigFor t
+  pure (Json.mkObj [("classes", Json.arr reps.toArray), ("classesD", Json.arr repsD.toArray),
+    ("imports", strsToJson (renderImports imports)), ("text", text)])
 
 end Typedpy.Drive.Stub
